@@ -11,6 +11,28 @@ func init() {
 			"length-equality test with the targets (R03c). The core is resolved by role (the callee whose []Hash result is compared with the roots), not by name.",
 		NotDecided: "that matching candidates to roots as a subsequence is the right acceptance criterion; that the core computes the right candidates from " +
 			"(targets, hashes, proof) — position arithmetic and hashing; collision resistance. A verifier whose comparisons are all present but compare the wrong values is not detected.",
-		Rules: []RuleDef{{ID: "R03", Statement: "rejection plumbing of the verifiers", Run: runC03}},
+		Rules: []RuleDef{{ID: "R03", Statement: "rejection plumbing of the verifiers", Run: runC03},
+			{ID: "R03d", Statement: "positions outside the forest are refused", Run: func(p *Program, r *Report) {
+				r.Rule("R03d", "POSITION-IN-FOREST: some failing return of the hashing core is guarded by a comparison of a claimed position with a bound computed from the leaf count (a non-existent position is refused, not hashed)")
+				checkPositionInForest(p, r, "R03d", resolveVerifyAnchors(p).core)
+			}},
+			{ID: "R03e", Statement: "positions are used in the right coordinate system", Run: func(p *Program, r *Report) {
+				r.Rule("R03e", "LAYOUT: on every verification path positions are handed to position arithmetic, translation and the node store only in the coordinate system (tree layout vs the map forest's TotalRows layout) the accompanying forest height denotes - a claimed position is verified as itself, not as its image under a wrong translation")
+				or := runOrderEngine(p, r, "R03e", []string{"Verify", "(*Pollard).Verify", "(*MapPollard).Verify", "(*MapPollard).VerifyPartialProof", "(*Stump).Update"})
+				reportOrderEvents(p, r, or, orderRules{coord: "R03e"})
+				r.Floor("R03e", "layout-checked call sites on the verification paths", r.Stats["coord_sites"], 10)
+			}},
+			{ID: "R03f", Statement: "the reserved zero hash is refused", Run: func(p *Program, r *Report) {
+				r.Rule("R03f", "NONZERO-HASHES: before the hashing core runs on caller-supplied hashes, the target hashes and the proof hashes are compared with the reserved all-zero hash and refused (the core moves a sibling up unhashed next to a zero hash)")
+				checkNonzeroHashes(p, r, "R03f", resolveVerifyAnchors(p))
+			}},
+			{ID: "R03g", Statement: "sibling tests exclude the position itself", Run: func(p *Program, r *Report) {
+				r.Rule("R03g", "SIBLING-TEST: in the hashing core siblinghood is never concluded from rightSib(a) == b alone (rightSib(a) == a for a right child); the test is joined with 'a is a left child'")
+				checkSiblingTests(p, r, "R03g", resolveVerifyAnchors(p))
+			}},
+			{ID: "R03h", Statement: "candidates are matched by position", Run: func(p *Program, r *Report) {
+				r.Rule("R03h", "CANDIDATE-POSITIONS-USED: a verifier matches each recomputed root with the root of its own tree, i.e. it uses the positions the core computed the candidates at")
+				checkCandidatePositionsUsed(p, r, "R03h", resolveVerifyAnchors(p))
+			}}},
 	})
 }
